@@ -58,8 +58,19 @@ def bounds(tier):
 
 
 def units(tier, seed):
-  return [('shapes', menu, n, nl, k)
-          for menu, n, nl in bounds(tier)['plans'] for k in range(NCHUNK)]
+  out = [('shapes', menu, n, nl, k)
+         for menu, n, nl in bounds(tier)['plans'] for k in range(NCHUNK)]
+  out += [('pressure', k) for k in (2, 3, 4, 5, 8, 13, 21)]
+  return out
+
+
+def pressure_roots(k):
+  """Structures with k temporary-creating nodes (id-recycling pressure)."""
+  yield [N.TmpPrim('L1') for _ in range(k)]
+  yield [N.Tmp('L1', N.TmpPrim(i)) for i in range(k)]
+  yield {i: (N.TmpPrim('L1'), [N.TmpPrim('L2')]) for i in range(k)}
+  shared = N.TmpPrim('S')
+  yield [fdl.Config(N.node, x=N.TmpPrim('L1'), y=shared) for _ in range(k)]
 
 
 class _Temp(list):
@@ -114,7 +125,8 @@ def expected_memoized_paths(root, memoize_internables=False):
 
 def children(x):
   if type(x) is N.TmpPrim:
-    return [(('attr', 'bang'), _TempLeaf(x.bang))]
+    return [(('attr', 'ibang'), _TempLeaf(x.ibang)),
+            (('attr', 'sbang'), _TempLeaf(x.sbang))]
   if type(x) is _TempLeaf:
     return None
   if type(x) is N.Tmp:
@@ -164,8 +176,8 @@ def same(a, b):
     a = a.value
   if type(b) is _TempLeaf:
     b = b.value
-  if isinstance(a, str) and isinstance(b, str):
-    return a == b
+  if isinstance(a, (str, int)) and isinstance(b, (str, int)):
+    return a == b and type(a) is type(b)
   if type(a) is _Temp or type(b) is _Temp:
     return list(a) == list(b) and all(x is y for x, y in zip(a, b))
   return a is b
@@ -480,6 +492,13 @@ def _kinds(menu):
 
 def run_unit(unit, tier, seed):
   res = core.Result()
+  if unit[0] == 'pressure':
+    for j, root in enumerate(pressure_roots(unit[1])):
+      res.states += 1
+      res.nontrivial += 1
+      check(root, res, {'pressure': unit[1], 'variant': j}, 'pressure')
+    res.sample({'pressure': unit[1]})
+    return res
   _, menu, n, nl, k = unit
   ks, byname = _kinds(menu)
   leaves = LEAVES if seed % 2 == 0 else [CONST_TUPLE, 'L1']
@@ -511,6 +530,10 @@ def run_unit(unit, tier, seed):
 
 def replay(case):
   res = core.Result()
+  if 'pressure' in case:
+    root = list(pressure_roots(case['pressure']))[case['variant']]
+    check(root, res, case, 'pressure')
+    return res
   ks, byname = _kinds(case['menu'])
   shape = tuple((k, tuple(tuple(s) if isinstance(s, list) else s
                           for s in sl)) for k, sl in case['shape'])
